@@ -2,6 +2,7 @@ package c06
 
 import (
 	"fmt"
+	"os"
 	"runtime"
 	"strconv"
 	"strings"
@@ -75,6 +76,9 @@ func (j *judge) run(cases []tcase) {
 	nOutside := 0
 	for i, r := range results {
 		c.Hist(r.tc.family + " -> " + r.status)
+		if r.tc.tag != "" {
+			c.Hist(r.tc.tag + " -> " + r.status)
+		}
 		if j.observe != nil {
 			j.observe(r)
 		}
@@ -86,7 +90,7 @@ func (j *judge) run(cases []tcase) {
 		case "panic":
 			j.totalOK = false
 			if c.NFails("totality: no panic") < 5 {
-				c.Fail("property", "totality: no panic", "parser-panic", replayInput(r.tc.family, r.tc.src), "parser.ParseString panicked: "+r.detail)
+				c.Fail("property", "totality: no panic", panicShape(r.detail), replayInput(r.tc.family, r.tc.src), "parser.ParseString panicked: "+r.detail)
 			}
 		case "no-progress":
 			j.totalOK = false
@@ -208,7 +212,8 @@ func (j *judge) run(cases []tcase) {
 			continue
 		}
 		if !(strings.HasPrefix(r.tc.family, "repository") || strings.HasPrefix(r.tc.family, "hand") || strings.HasPrefix(r.tc.family, "preserving") ||
-			strings.HasPrefix(r.tc.family, "parser test") || strings.HasPrefix(r.tc.family, "coverage") || strings.HasPrefix(r.tc.family, "keyword layout")) {
+			strings.HasPrefix(r.tc.family, "parser test") || strings.HasPrefix(r.tc.family, "coverage") || strings.HasPrefix(r.tc.family, "keyword layout") ||
+			strings.HasPrefix(r.tc.family, "file prologue") || strings.HasPrefix(r.tc.family, "illegal piece")) {
 			continue
 		}
 		src := r.tc.src
@@ -347,14 +352,14 @@ func sweep(c *core.Ctx, extra []tcase) {
 	frags := testFragments()
 	var base []tcase
 	for _, s := range tmpls {
-		base = append(base, tcase{"repository template", s})
+		base = append(base, mkCase("repository template", s))
 	}
 	for _, s := range handWritten {
-		base = append(base, tcase{"hand-written probe", s})
+		base = append(base, mkCase("hand-written probe", s))
 	}
 	for _, f := range frags {
-		base = append(base, tcase{"parser test literal (raw)", f})
-		base = append(base, tcase{"parser test literal (in a templ body)", wrap(f)})
+		base = append(base, mkCase("parser test literal (raw)", f))
+		base = append(base, mkCase("parser test literal (in a templ body)", wrap(f)))
 	}
 	c.Extra["repository_templates"] = len(names)
 	c.Extra["parser_test_literals"] = len(frags)
@@ -416,6 +421,24 @@ func sweep(c *core.Ctx, extra []tcase) {
 	for _, b := range base {
 		add(b)
 	}
+	// scanner-ILLEGAL pieces in every open context of every expression form, cut at every byte (exhaustive, ordered by length)
+	ill := illegalFamily(c)
+	for _, ic := range ill {
+		add(ic.tcase())
+		c.Hist("illegal piece class: " + illPieces[ic.piece].class)
+		c.Hist("open context: " + illContexts[ic.ctx].name)
+	}
+	c.Extra["illegal_pieces_in_open_contexts"] = map[string]any{"forms": len(illForms), "open contexts": len(illContexts), "pieces": len(illPieces), "files (distinct, cuts included)": len(ill)}
+	// file prologues and encodings, through parser.ParseString and through parser.Parse of a file on disk
+	if dir, err := os.MkdirTemp("", "c06files"); err == nil {
+		fileDir = dir
+		defer os.RemoveAll(dir)
+	} else {
+		c.Oblige("correspondence", "scratch directory for the files parsed through parser.Parse", false, err.Error())
+	}
+	for _, pc := range prologueFamily(c, whole) {
+		add(pc)
+	}
 	// keyword layouts, one slot at a time with every separator (exhaustive, consumes no randomness, minimal inputs first)
 	lcases, linfo := layoutExhaustive(c)
 	ltab := &layoutTable{info: linfo, accepted: map[string][]string{}, rejected: map[string]int{}}
@@ -437,13 +460,13 @@ func sweep(c *core.Ctx, extra []tcase) {
 				k = 60
 			}
 			for ; k > 0; k-- {
-				add(tcase{"truncation of " + b.family, b.src[:c.Rng.Intn(len(b.src))]})
+				add(mkCase("truncation of " + b.family, b.src[:c.Rng.Intn(len(b.src))]))
 			}
 		}
 	} else {
 		for _, b := range base {
 			for i := 0; i < len(b.src); i++ {
-				add(tcase{"truncation of " + b.family, b.src[:i]})
+				add(mkCase("truncation of " + b.family, b.src[:i]))
 			}
 		}
 	}
@@ -467,7 +490,7 @@ func sweep(c *core.Ctx, extra []tcase) {
 				fam = f
 			}
 		}
-		add(tcase{"mutation: " + fam, s})
+		add(mkCase("mutation: " + fam, s))
 	}
 	// position-moving mutations only (these mostly stay accepted)
 	for i := c.N(16000, 250000); i > 0; i-- {
@@ -480,7 +503,7 @@ func sweep(c *core.Ctx, extra []tcase) {
 				fam = f
 			}
 		}
-		add(tcase{"preserving mutation: " + fam, s})
+		add(mkCase("preserving mutation: " + fam, s))
 	}
 	// random bytes
 	for i := c.N(6000, 250000); i > 0; i-- {
@@ -497,7 +520,7 @@ func sweep(c *core.Ctx, extra []tcase) {
 		if c.Rng.Bool() {
 			s = "package p\n\ntempl t() {\n" + s
 		}
-		add(tcase{"random bytes", s})
+		add(mkCase("random bytes", s))
 	}
 	// keyword layouts at random: several forms per file, and the blanks of the repository's own templates
 	for i := c.N(7000, 150000); i > 0; i-- {
@@ -509,6 +532,7 @@ func sweep(c *core.Ctx, extra []tcase) {
 	flush(true)
 	c.Extra["keyword_layouts"] = ltab.extra()
 	restore()
+	orderPhase(c, ill)
 
 	// attribute backwards moves to inputs by a sequential re-run
 	progOK := len(pviol) == 0
